@@ -249,6 +249,8 @@ def in_contexts(shapes, contexts=("bare", "seq", "sor")):
                 top = N("sor", [sh, S(7)])
             elif c == "star":
                 top = N("star", [sh])
+            elif c == "bt":
+                top = N("sor", [N("seq", [sh, S(6)]), S(7)])
             g = gen.Grammar([top])
             m = best_mask(g, 6)
             if m is None:
@@ -1008,18 +1010,23 @@ spec("C18", plan=plan_c18,
 # ---------------------------------------------------------------------------- C12
 
 
-def make_selectors(g, rnd):
-    """Two random selectors over the grammar's user-visible types (named rules and sub-expressions)."""
+def make_selectors(g, rnd, slots_first=False):
+    """Two random selectors over the grammar's user-visible types (named rules and sub-expressions).
+    slots_first: selector 1 selects only a random subset of the leaves (slots): every combinator above them is unselected, which is
+    where the tree builder's leaf optimisation (decided from subs_t, 8 levels deep) is used most."""
     L = gen.Lowered(g)
     cts = sorted(set(m.ctype for m in L.nodes if m.ctype))
     sels = []
     # selector 1: subset, store_content only
     s1 = {}
     for ct in cts:
-        if rnd.random() < 0.45:
+        if slots_first:
+            if ct.startswith("vf::slot") and rnd.random() < 0.5:
+                s1[ct] = 1
+        elif rnd.random() < 0.45:
             s1[ct] = 1
     if not s1 and cts:
-        s1[cts[0]] = 1
+        s1[[c for c in cts if c.startswith("vf::slot")][0] if slots_first and any(c.startswith("vf::slot") for c in cts) else cts[0]] = 1
     sels.append(s1)
     # selector 2: mix of all four transformers
     s2 = {}
@@ -1035,6 +1042,30 @@ def make_selectors(g, rnd):
             s2[ct] = 4
     sels.append(s2)
     g.selectors = sels
+
+
+def abort_shapes(rnd):
+    """C12 / C08: a rule whose own (void or bool, apply or apply0) action throws, at several depths below a try_catch_*_return_false
+    that absorbs the exception, after which another alternative matches the same input: nothing of the aborted branch may stay."""
+    N = gen.N
+    out = []
+    wrappers = [lambda x: x, lambda x: N("seq", [x]), lambda x: N("plus", [x]), lambda x: N("opt", [x]),
+                lambda x: N("seq", [N("at", [N("any")]), x]), lambda x: N("list", [x, N("one", s="a")])]
+    for co in ("try_catch_any_return_false", "try_catch_std_return_false", "try_catch_type_return_false"):
+        for wi, w in enumerate(wrappers):
+            for kind in (1, 2, 3, 4):
+                # R0 <- ( try< R1 w(R2) > R4 ) / ( R1 R3* );  R1 <- 'a';  R2 <- 'b' (throwing action);  R3 <- [ab];  R4 <- 'a'?
+                r0 = N("sor", [N("seq", [N(co, [gen.ref(1), w(gen.ref(2))]), gen.ref(4)]), N("seq", [gen.ref(1), N("star", [gen.ref(3)])])])
+                g = gen.Grammar([r0, N("one", s="a"), N("one", s="b"), N("one", s="ab"), N("opt", [N("one", s="a")])], veto=(kind >= 3), throw=True)
+                g.actions["R2"] = kind
+                if wi % 2:
+                    g.actions["R1"] = 1
+                    g.actions["R3"] = 2
+                g.alphabet = "ab"
+                g.note = "abort:%s:w%d:k%d" % (co, wi, kind)
+                make_selectors(g, rnd)
+                out.append(g)
+    return out
 
 
 def chain_grammars():
@@ -1091,14 +1122,22 @@ def plan_c12(tier, seed, workdir, case):
     chains = chain_grammars()
     # (3) slot shapes: raising / throwing / consume-then-fail leaves under every combinator
     shapes = in_contexts(conv_shapes(bounds=(0, 1, 2)) + try_shapes(), contexts=("bare", "seq"))
+    core = [gen.N(o, [gen.N("slot", k=0), gen.N("slot", k=1)]) for o in ("seq", "sor")] + \
+           [gen.N(o, [gen.N("slot", k=0)]) for o in ("star", "plus", "opt", "at", "not_at")]
+    # "bt": the combinator succeeded, a later rule fails, another alternative matches - nodes of the first branch must vanish
+    # "sor" / "star": the combinator itself fails after parts of it matched and its parent carries on
+    shapes += in_contexts(conv_shapes(bounds=(1, 2)) + try_shapes() + core, contexts=("bt", "sor", "star"))
     for g in shapes:
-        make_selectors(g, rnd)
+        make_selectors(g, rnd, slots_first=True)
+    aborts = abort_shapes(rnd)
     runs = []
+    for t in write_tus(workdir, "t4", aborts, 12, 6, C09_INCLUDES):
+        runs.append(Run(t, args=["--prop", "C12"]))
     for t in write_tus(workdir, "t1", gs, 8 if q else 20, 6, C09_INCLUDES):
         runs.append(Run(t, args=["--prop", "C12"]))
     for t in write_tus(workdir, "t2", chains, 6, 6, C09_INCLUDES):
         runs.append(Run(t, args=["--prop", "C12"]))
-    for t in write_tus(workdir, "t3", shapes, 12, 6, C09_INCLUDES):
+    for t in write_tus(workdir, "t3", shapes, 16, 6, C09_INCLUDES):
         runs.append(Run(t, args=["--prop", "C12", "--rc", "300" if q else "4000"]))
     return runs
 
@@ -1109,7 +1148,9 @@ spec("C12", plan=plan_c12,
           "and convenience operators, (2) grammars whose try_catch_*_return_false rules absorb must failures and exceptions thrown by "
           "actions and then continue, (3) chains of 6..11 unselected wrapper rules above a selected rule under backtracking, "
           "look-ahead and repetition (the leaf optimisation looks 8 levels deep), (4) every combinator over raising / throwing / "
-          "consume-then-fail slots; all inputs to length 5/6 plus rapidcheck inputs and scripts.  Oracle: a tree is returned iff the "
+          "consume-then-fail slots, bare, inside seq and as a first alternative that fails itself or succeeds before a later rule fails, and as the body of star (one selector "
+          "selects only leaves: all combinators are then candidates for the leaf optimisation), (5) rules whose own action throws at "
+          "several depths below a try_catch that absorbs the exception before another alternative matches; all inputs to length 5/6 plus rapidcheck inputs and scripts.  Oracle: a tree is returned iff the "
           "reference model says the parse succeeds, and it equals the model's derivation tree (successful matches of user-visible rule "
           "types that survive, including those inside a succeeding at<>) restricted to the selected types with the documented "
           "transformers applied bottom-up: type, begin/end offsets, content flag, order and nesting.  Non-trivial: a run in which an "
